@@ -206,6 +206,8 @@ var commentProbes = []struct{ Name, Src string }{
 	{"comment-in-struct-body", "package main\n\nimport \"fmt\"\n\ntype P struct {\n\t// the name\n\tname string\n\tage  int // years\n}\n\nfunc main() {\n\tfmt.Println(P{name: \"x\", age: 3})\n}\n"},
 	{"comment-in-interface-body", "package main\n\nimport \"fmt\"\n\ntype S interface {\n\t// area of the shape\n\tArea() int\n}\n\ntype Q struct {\n\tn int\n}\n\nfunc (q Q) Area() int {\n\treturn q.n\n}\n\nfunc main() {\n\tvar s S\n\ts = Q{n: 2}\n\tfmt.Println(s.Area())\n}\n"},
 	{"trailing-comment-on-first-line-of-multiline-statement", "package main\n\nimport \"fmt\"\n\nconst ( // limits\n\tlo = 1\n\thi = 9\n)\n\nfunc main() {\n\tif lo < hi { // always\n\t\tfmt.Println(lo, hi)\n\t}\n}\n"},
+	{"eol-comment-after-else-open-brace", "package main\n\nimport \"fmt\"\n\nfunc main() {\n\tx := 3\n\tif x > 5 { // big\n\t\tfmt.Println(\"big\")\n\t} else if x > 2 { // middle\n\t\tfmt.Println(\"middle\")\n\t} else { // small\n\t\tfmt.Println(\"small\")\n\t}\n}\n"},
+	{"eol-comment-after-func-literal-call", "package main\n\nimport \"fmt\"\n\nfunc apply(f func(int) int, v int) int {\n\treturn f(v)\n}\n\nfunc main() {\n\tfunc() {\n\t\tfmt.Println(\"iife\")\n\t}() // called at once\n\tr := apply(func(q int) int {\n\t\treturn q * q\n\t}, 21) // squared\n\tfmt.Println(r)\n\tdefer func() {\n\t\tfmt.Println(\"bye\")\n\t}() /* deferred */\n}\n"},
 	{"star-comment-lines-ending-in-continuation-rune", "package main\n\nimport \"fmt\"\n\n/*\n * First line ends in a period.\n * Second line ends in a comma,\n * third line ends plainly\n */\nfunc main() {\n\t/*\n\t * Inside a function: indented star comment.\n\t * Another line.\n\t */\n\tfmt.Println(\"star\")\n}\n"},
 	{"block-comment-lines-ending-in-continuation-rune", "package main\n\nimport \"fmt\"\n\nfunc main() {\n\t/* A plain block comment.\n\t   Its second line ends in a period.\n\t   Third line, with a comma,\n\t   last line */\n\tfmt.Println(\"block\")\n}\n"},
 }
